@@ -131,7 +131,7 @@ func checkC01(c *core.Ctx) {
 }
 
 // knownDrops: the statements a listed finding breaks; a run that met the finding is validated again without them.
-var knownDrops = map[string][]string{"H21-conductivity-negative-low-bulk-density": {"C19_Stable", "C19_Envelope"}}
+var knownDrops = map[string][]string{"H21-conductivity-negative-low-bulk-density": {"C19_Stable", "C19_Envelope", "C19_MaxPrinciple"}}
 
 // knownFor matches a trace violation against the listed known findings of the property (read-only file).
 // A finding matches by invariant name and a predicate on the generating description; anything else stays a violation.
@@ -157,7 +157,7 @@ func knownFor(c *core.Ctx, tr *traceResult) *core.Finding {
 				low = true
 			}
 		}
-		if low && (tr.Violated == "C19_Stable" || tr.Violated == "C19_Envelope") {
+		if low && (tr.Violated == "C19_Stable" || tr.Violated == "C19_Envelope" || tr.Violated == "C19_MaxPrinciple") {
 			return c.KnownFinding("H21-conductivity-negative-low-bulk-density")
 		}
 	case "C04":
